@@ -194,44 +194,24 @@ func (sc *Scanner) scanIdent(ch int, buf *bytes.Buffer) error {
 	return nil
 }
 
-func (sc *Scanner) scanDecimal(ch int, buf *bytes.Buffer) error {
-	writeChar(buf, ch)
-	for isDecimal(sc.Peek()) {
-		writeChar(buf, sc.Next())
-	}
-	return nil
-}
-
 func (sc *Scanner) scanNumber(ch int, buf *bytes.Buffer) error {
-	if ch == '0' { // octal
-		if sc.Peek() == 'x' || sc.Peek() == 'X' {
-			writeChar(buf, ch)
-			writeChar(buf, sc.Next())
-			hasvalue := false
-			for isDigit(sc.Peek()) {
-				writeChar(buf, sc.Next())
-				hasvalue = true
-			}
-			if !hasvalue {
-				return sc.Error(buf.String(), "illegal hexadecimal number")
-			}
-			return nil
-		} else if sc.Peek() != '.' && isDecimal(sc.Peek()) {
-			ch = sc.Next()
-		}
-	}
-	sc.scanDecimal(ch, buf)
-	if sc.Peek() == '.' {
-		sc.scanDecimal(sc.Next(), buf)
+	// collect everything that can belong to a numeral, then check it as a whole
+	writeChar(buf, ch)
+	for isDecimal(sc.Peek()) || sc.Peek() == '.' {
+		writeChar(buf, sc.Next())
 	}
 	if ch = sc.Peek(); ch == 'e' || ch == 'E' {
 		writeChar(buf, sc.Next())
 		if ch = sc.Peek(); ch == '-' || ch == '+' {
 			writeChar(buf, sc.Next())
 		}
-		sc.scanDecimal(sc.Next(), buf)
 	}
-
+	for isIdent(sc.Peek(), 1) {
+		writeChar(buf, sc.Next())
+	}
+	if _, ok := ParseNumber(buf.String()); !ok {
+		return sc.Error(buf.String(), "malformed number")
+	}
 	return nil
 }
 
